@@ -473,6 +473,11 @@ func (s *Shard) SearchPoints(searchRequest models.SearchRequest) ([]models.Searc
 	if searchRequest.Limit == 0 {
 		searchRequest.Limit = len(finalResults)
 	}
+	if searchRequest.Offset > len(finalResults) {
+		// Nothing is left to return. Capping here also keeps Offset+Limit below
+		// from overflowing for offsets close to the maximum integer.
+		searchRequest.Offset = len(finalResults)
+	}
 	finalResults = finalResults[min(searchRequest.Offset, len(finalResults)):min(searchRequest.Offset+searchRequest.Limit, len(finalResults))]
 	// ---------------------------
 	return finalResults, nil
